@@ -256,14 +256,15 @@ def r3(ctx):
     okr = len(raises) == 1 and isinstance(raises[0].exc, ast.Call) and norm(raises[0].exc.func) == "ValueError"
     ctx.check(ok and okr, "C06.R3", bld, "oversize -> ValueError before anything is produced", "a payload above the limit is refused, never truncated", line=lim.lineno)
     # in send(): nothing reaches the queue outside the loop over build(); the sender is registered
-    frag_if = cap.frag_test[2]
-    sts = [c for c in calls_named(snd, "_send_type") if any(p is frag_if for p in _parents(c, snd.node)) and c in [x for b in frag_if.body for x in ast.walk(b)]]
+    sts = cap.send_calls(True)
     ok = len(sts) == 1 and any(isinstance(p, ast.For) and isinstance(p.iter, ast.Call) and norm(p.iter.func).endswith(".build") and
                                norm(p.iter.args[0]) == snd.params[1] for p in _parents(sts[0], snd.node))
     ctx.check(ok, "C06.R3", snd, "fragments are queued only inside `for ... in sender.build(payload)`", "the whole payload goes through build(); the generator raises before its first yield on oversize",
               witness=[norm(c) for c in sts])
     # unfragmented branch sends the payload itself as APP
-    other = [c for c in calls_named(snd, "_send_type") if c not in sts]
+    other = cap.send_calls(False)
+    ctx.check(len(sts) + len(other) == len(calls_named(snd, "_send_type")), "C06.R3", snd, "every _send_type call of send() is on one side of the length test",
+              witness=[norm(c) for c in calls_named(snd, "_send_type")])
     ok = len(other) == 1 and norm(other[0].args[0]).endswith(".APP") and norm(other[0].args[1]) == snd.params[1]
     ctx.check(ok, "C06.R3", snd, "small payloads are queued whole as APP", witness=[norm(c) for c in other])
     # payload type check
@@ -280,14 +281,58 @@ def _parents(node, stop):
     return out
 
 
+def _completeness_kind(ic):
+    """how isComplete decides that a slot is filled: 'truthy' (an empty fragment counts as missing), 'explicit' (is None /
+    is not None), or None when the function is not recognisably `every slot of self.fragments is filled`.
+    Accepted spellings: all(self.fragments); all(<test of x> for x in self.fragments); not any(<negated test> ...);
+    the search loop `for x in self.fragments: if <negated test>: return False` followed by `return True`."""
+    def slot_test(e, var, negated):
+        t = norm(e)
+        if negated:
+            if t in ("not %s" % var, "not bool(%s)" % var):
+                return "truthy"
+            if t == "%s is None" % var:
+                return "explicit"
+        else:
+            if t in (var, "bool(%s)" % var):
+                return "truthy"
+            if t == "%s is not None" % var:
+                return "explicit"
+        return None
+
+    def gen_kind(g, negated):
+        if isinstance(g, ast.GeneratorExp) or isinstance(g, ast.ListComp):
+            if len(g.generators) == 1 and not g.generators[0].ifs and norm(g.generators[0].iter) == "self.fragments" and isinstance(g.generators[0].target, ast.Name):
+                return slot_test(g.elt, g.generators[0].target.id, negated)
+        return None
+    body = [st for st in ic.node.body if not (isinstance(st, ast.Expr) and isinstance(st.value, ast.Constant))]
+    if len(body) == 1 and isinstance(body[0], ast.Return) and body[0].value is not None:
+        v = body[0].value
+        if norm(v) == "all(self.fragments)":
+            return "truthy"
+        if isinstance(v, ast.Call) and norm(v.func) == "all" and len(v.args) == 1:
+            return gen_kind(v.args[0], False)
+        if isinstance(v, ast.UnaryOp) and isinstance(v.op, ast.Not) and isinstance(v.operand, ast.Call) and norm(v.operand.func) == "any" and len(v.operand.args) == 1:
+            return gen_kind(v.operand.args[0], True)
+        t = norm(v)
+        return "explicit" if ("is not None" in t or "is None" in t) else None
+    if len(body) == 2 and isinstance(body[0], ast.For) and not body[0].orelse and norm(body[0].iter) == "self.fragments" and isinstance(body[0].target, ast.Name) \
+            and len(body[0].body) == 1 and isinstance(body[0].body[0], ast.If) and not body[0].body[0].orelse and len(body[0].body[0].body) == 1 \
+            and isinstance(body[0].body[0].body[0], ast.Return) and norm(body[0].body[0].body[0].value) == "False" \
+            and isinstance(body[1], ast.Return) and norm(body[1].value) == "True":
+        return slot_test(body[0].body[0].test, body[0].target.id, True)
+    return None
+
+
 def r4(ctx):
     cap = capacity(ctx)
     bld = cap.build
     ic = ctx.fn("connection:FragmentReceiver.isComplete")
     rets = [n for n in walk_own(ic.node) if isinstance(n, ast.Return)]
     txt = norm(rets[0].value) if rets else ""
-    truthy = txt == "all(self.fragments)"
-    explicit = "is not None" in txt or "is None" in txt
+    kind = _completeness_kind(ic)
+    truthy = kind == "truthy"
+    explicit = kind == "explicit"
     ctx.check(truthy or explicit, "C06.R4", ic, "completeness = every slot filled", witness=txt)
     if truthy:
         # then every fragment must be non-empty: appends happen inside `while len(payload) > 0` and F >= 1
